@@ -46,6 +46,8 @@ def census():
     for f in glob.glob(os.path.join(ROOT, "lean/Ymq/Model/*.lean")) + glob.glob(os.path.join(ROOT, "lean/Ymq/Gen/*.lean")) + \
             glob.glob(os.path.join(ROOT, "translate/*.py")):
         model_text += open(f).read()
+    # a model header may name several methods at once: `Type::{new, add, det}` -> Type::new Type::add Type::det
+    model_text = re.sub(r"(\b\w+)::\{([^}]*)\}", lambda m: " ".join(m.group(1) + "::" + x.strip() for x in m.group(2).split(",")), model_text)
     rows = {}
     for path in sorted(glob.glob(os.path.join(REPO, "src/**/*.rs"), recursive=True)):
         rel = os.path.relpath(path, REPO)
